@@ -290,8 +290,32 @@ def optimiser_runs(run, scratch, seed, nruns):
             if rule.get("is_constant") or "init" not in rule or isinstance(rule["init"], dict):
                 continue
             lo, hi, v = rule.get("lower"), rule.get("upper"), rule["init"]
-            if (lo is not None and v < lo - 1e-9) or (hi is not None and v > hi + 1e-9):
+            if (lo is not None and v < lo) or (hi is not None and v > hi):  # exact: a value written back is inside its bounds
                 run.fail(key + ":value-out-of-bounds", {"model": model, "rule": {k: (float(x) if isinstance(x, (int, float)) else x) for k, x in rule.items()}}, what="optimised parameter outside its declared bounds")
+    # the optimum sits ON a declared bound (transition-only data push kappa up; the start is the bound itself), for bounds b
+    # whose exp(log(b)) does not round back to b (10, 100, 0.001 ...): the value reported afterwards is within [lower, upper]
+    from cogent3 import make_aligned_seqs as _mas
+
+    ts = _mas({"a": "AAAACCCCGGGGTTTTAACCGGTTACGTACGT", "b": "GAAATCCCAGGGCTTTAGCTGGTTACGTGCGT", "c": "AGAACTCCGAGGTCTTAACCAGTCACATACGC"}, moltype="dna")
+    for par, kw in (("kappa", dict(init=10.0, upper=10.0)), ("kappa", dict(init=100.0, upper=100.0)), ("kappa", dict(init=250.0, upper=100.0)), ("kappa", dict(init=5.0, lower=5.0, upper=5.0 + 1e-9))):
+        lf = get_model("HKY85").make_likelihood_function(fx["tree"])
+        lf.set_alignment(ts)
+        try:
+            lf.set_param_rule(par, **kw)
+        except Exception:
+            continue
+        before = lf.lnL
+        lf.optimise(show_progress=False, local=True, max_evaluations=60, limit_action="ignore")
+        meta.append(("HKY85 optimum on a bound", kw, before, lf.lnL))
+        for rule in lf.get_param_rules():
+            if rule.get("is_constant") or "init" not in rule or isinstance(rule["init"], dict):
+                continue
+            lo, hi, v = rule.get("lower"), rule.get("upper"), rule["init"]
+            if (lo is not None and v < lo) or (hi is not None and v > hi):
+                run.fail("optimise:optimum-on-a-declared-bound:value-out-of-bounds", {"rule": {k: (float(x) if isinstance(x, (int, float)) else x) for k, x in rule.items()}, "declared": kw},
+                         what="after optimise() a parameter whose optimum sits on its bound is reported outside [lower, upper]")
+        if lf.lnL < before - 1e-9 * max(1.0, abs(before)):
+            run.fail("optimise:optimum-on-a-declared-bound:lnL-decreased", {"declared": kw, "before": before, "after": lf.lnL}, what="optimise returned a lower lnL than it started from")
     # a richer model whose calculation REFUSES some vectors mid-evaluation (GeneralStationary), initialised from the fitted
     # GTR nested in it: initialisation reproduces the lnL, and optimisation under several limits neither loses nor raises
     from cogent3.evolve.ns_substitution_model import GeneralStationary
